@@ -35,6 +35,12 @@ def drop_net(script, idx):
     s.pop('_memremap', None)
     net = s['nets'].pop(idx)
     wires = {w['n']: w for w in s['wires']}
+    if net['op'] == 'r':
+        d = net['d'][0]
+        if not any(d in n['a'] for n in s['nets']):
+            # nobody reads this register: it goes away entirely
+            s['wires'].remove(wires[d])
+            net = {'op': 'r', 'a': [], 'd': []}
     for d in net['d']:
         w = wires[d]
         if w['k'] == 'O':
